@@ -17,15 +17,15 @@ type C14Entry struct {
 }
 
 type C14Case struct {
-	Op         string       `json:"op"`
-	Id         int          `json:"id"`
-	NodeIds    []string     `json:"nodeIds"`
-	Targets    []string     `json:"targets"`
-	Root       *string      `json:"root"`
-	Additional [][]any      `json:"additional"` // [location, [element ids]]
-	Entries    []C14Entry   `json:"entries"`
-	Profile    string       `json:"profile"`
-	Data       string       `json:"data"`
+	Op         string     `json:"op"`
+	Id         int        `json:"id"`
+	NodeIds    []string   `json:"nodeIds"`
+	Targets    []string   `json:"targets"`
+	Root       *string    `json:"root"`
+	Additional [][]any    `json:"additional"` // [location, [element ids]]
+	Entries    []C14Entry `json:"entries"`
+	Profile    string     `json:"profile"`
+	Data       string     `json:"data"`
 }
 
 func (g *G) bigNum() string {
@@ -145,7 +145,6 @@ func genC14(g *G, n int, out io.Writer) {
 		enc.Encode(c)
 	}
 }
-
 
 // withLexical appends source-map nodes giving a lexical entry to a random subset of the given node ids
 func withLexical(g *G, data string, ids []string, frac float64) string {
